@@ -535,8 +535,11 @@ impl DmlExecutor {
                         let existing =
                             index_btree.get_tuple_at_unchecked(position, &index_schema)?;
 
-                        // If it is deleted we need to un-delete it
-                        if existing.is_deleted() {
+                        // If it is deleted we need to un-delete it. The same goes for an entry
+                        // left behind by a transaction that aborted: nobody can see it, so the
+                        // key would otherwise stay unreachable through the index.
+                        if existing.is_deleted() || snapshot.is_transaction_aborted(existing.xmin())
+                        {
                             index_btree.update(index_root, index_tuple, index_schema)?;
                         };
 
